@@ -45,7 +45,7 @@ def run_shard(spec, seed, tier, stats):
     v = run_hypothesis(lambda scenario, schedule: check_session(scenario, schedule, stats),
                        {'scenario': SE.SCENARIO(1, spec['max_boards'], spec['play_prob']), 'schedule': SE.SCHEDULE()},
                        seed, spec['n'], tier == 'thorough')
-    return [v] if v else []
+    return [SE.reduce_violation(check_session, v)] if v else []
 
 
 def replay(rec):
